@@ -133,7 +133,8 @@ verus_unit("oodv", "oodv", ["C03", "C06", "C12", "C04", "C05"], [
     "Table::from_bytes (every admissible row / column count, every byte content: the first rows * cols element encodings, row-major; Err exactly when they cannot be decoded; the four assertions never fire for counts in 1..=255)",
     "Queries::parse (every byte content of the value and path vectors, 1..=255 queries x 1..=255 values per query: Ok exactly when the value bytes are exactly queries * values * ELEMENT_BYTES long, decode to that many elements, the path bytes decode to a batch Merkle proof for the row hashes at depth log2(domain size), and nothing follows; the results are that proof and that table; no overflow; BatchMerkleProof::deserialize is a named contract proved in unit containerv, the row iterator and ilog2 / is_power_of_two are assumed std-style shims)",
     "FriProof::parse_remainder / num_remainder_elements (every byte content: Ok exactly when the implied number of elements - byte length / ELEMENT_BYTES - is a power of two, the bytes decode to that many elements and nothing follows; the result is those elements)",
-    "FriProofLayer::parse (every byte content of the value and path vectors, every folding factor: Ok exactly when the value bytes are a positive whole number of queries - length a multiple of ELEMENT_BYTES * folding_factor -, decode to queries * folding_factor elements with nothing left over, and the path bytes decode, with nothing left over, to a batch Merkle proof for the per-query hashes at depth log2(domain size); the results are those elements and that proof; no overflow, no out-of-range index; the iter_mut loop is written with an index - listed rewrite)"])
+    "FriProofLayer::parse (every byte content of the value and path vectors, every folding factor: Ok exactly when the value bytes are a positive whole number of queries - length a multiple of ELEMENT_BYTES * folding_factor -, decode to queries * folding_factor elements with nothing left over, and the path bytes decode, with nothing left over, to a batch Merkle proof for the per-query hashes at depth log2(domain size); the results are those elements and that proof; no overflow, no out-of-range index; the iter_mut loop is written with an index - listed rewrite)",
+    "FriProof::parse_layers (every number of layers, every content, every power-of-two domain size and folding factor: Ok exactly when every layer's domain D / ff^i can still be folded and the layer is a canonical encoding for the folded domain D / ff^(i+1); the results are the layers' values and batch proofs in order; the enumerate index - used in error texts only - is dropped: listed rewrite)"])
 
 
 verus_unit("proofserdev", "proofserdev", ["C12", "C03"], [
